@@ -69,6 +69,10 @@ TRUSTED = [
     'location) / find_in_loc / find_loc as one pass over the walk(\'loc\') preorder list, the decorator roots given as input',
     'the recursive find_contains_loc call on a decorator is modelled by the pass without decorator search (a decorator '
     'expression cannot contain a decorated definition); compared with the real function on every corpus list',
+    'view locations (FSTView.loc / ln / col / end_ln / end_col / bloc) of every contiguous window of the sliceable real and '
+    'virtual fields (_args, _bases, _attrs, Dict/MatchMapping/Compare _all, _body, decorator_list, targets incl. `=`, ifs '
+    'incl. `if`, ...) are judged by the token oracle on fresh trees; not judged: arguments._all, Global/Nonlocal names, '
+    'kwd_attrs, Dict.keys, cases, elements inside f-strings',
     'bloc end column of block statements (loc + trailing line comment) is modelled (blocEndCol) and compared on fresh trees '
     'and after every step of a line-comment edit chain with all caches filled beforehand',
     'not modelled (checked only by the CPython-judged sweep): _loc_op, _loc_arguments, _loc_comprehension, _loc_withitem, '
@@ -138,6 +142,9 @@ SNIPPETS = [
     'match x:\n    case {1: a, 2: C(rest=b), **rest}: pass\n    case C(p, (q), k=(r), kk=C(k=1), kkk=[k]): pass\n    case {**kw}: pass\n    case {"a": 1, **  r2 ,}: pass\n',
     'class C[T](B[T]): pass\nclass D(B[0]): pass\ndef f(a=[1]): pass\ndef g[T](a: list[T]) -> x[T]: pass\ntype X = list[int]\ntype Y[T] = list[T]',
     'class C(k=a[0], *b): pass\nclass D(k={1: 2}, *b[1:2], l=c[0]): pass',
+    'match x:\n    case cls(a, b=c): pass\n    case cls((a), b, k=v, z=w): pass\n    case Pt(q=(1 | 2), r=s): pass\n    case cls(a, b=(c)): pass\n    case K((u), v=w, z=( (y) )): pass\n    case Mé(é=(\'ü\'), ñ=( n ), ö=(o)): pass\n    case Long(\n        first,\n        key = (\n            value\n        ),\n        other=( [p, q] )\n    ): pass\n',
+    'é = {(a): (b), **(c), \'ü\': (\n    d\n), **e}\nñ = (a) < (é) == (\n  c\n) in (d)\nmatch x:\n    case {1: (a), \'é\': (b | c), **r}: pass\n    case [(a), (b), *c] | ((d)): pass\n',
+    'f((a), *(b), k=(é), *c, **(d))\nclass C((A), *(B), k=(v), **(kw)): pass\nx = [(a), (\n b\n), *(c)]\nimport a.b as c, d\nfrom m import (x as y, z)\ndel (a), (b)\nwith (a) as (b), (c): pass\n',
     '@d("#")\ndef f(x="#"): return x["#"]\nasync def g():\n    async with a: await b("#")\n',
 ]
 
@@ -648,6 +655,148 @@ def _judge_geometry(root, orc, o_of, res, fail, tally):
     return nodes
 
 
+def _elem_extent(orc, o):
+    """(start, end) of one element of a sliceable field as a view reports it: grouping parentheses of an expression /
+    pattern included, decorators and trailing block comment for statements; None = not judged"""
+    if isinstance(o, (ast.Starred, ast.Slice)) or isinstance(o, (ast.keyword, ast.alias, ast.arg, ast.type_param)):
+        return orc.span(o) if orc.has_pos(o) else None
+    if isinstance(o, (ast.expr, ast.pattern)):
+        if id(o) in orc.in_fstr or isinstance(o, (ast.JoinedStr, ast.FormattedValue)):
+            return None
+        return orc.group_span(o)
+    if isinstance(o, (ast.stmt, ast.ExceptHandler)):
+        if isinstance(o, BLOCKS):
+            return orc.expected_bloc(o, None)
+        return orc.span(o)
+    if isinstance(o, ast.comprehension):
+        return orc.expected_comprehension(o)
+    if isinstance(o, ast.withitem):
+        return orc.expected_withitem(o)
+    return None
+
+
+def _view_elements(orc, o):
+    """{view name: [(start, end) | None per element]} for the sliceable real and virtual fields of the CPython node"""
+    out = {}
+    for field in o._fields:
+        v = getattr(o, field, None)
+        if isinstance(v, list) and v and all(isinstance(x, ast.AST) for x in v) and field not in ('ops', 'cases', 'keys'):
+            if isinstance(o, ast.JoinedStr) or id(o) in orc.in_fstr:
+                continue
+            if field == 'decorator_list':
+                ex = []
+                for d in v:
+                    at, g = orc.deco_at(d), orc.group_span(d)
+                    ex.append(None if at is None or g is None else (at.start, g[1]))
+                out[field] = ex
+            elif field == 'targets' and isinstance(o, ast.Assign):     # documented: a target element includes its `=`
+                ex = []
+                for x in v:
+                    g = orc.group_span(x)
+                    t = None if g is None else orc.by_end.get(g[1])
+                    nx = orc.toks[t.i + 1] if t is not None and t.i + 1 < len(orc.toks) else None
+                    ex.append((g[0], nx.end) if nx is not None and nx.s == '=' else None)
+                out[field] = ex
+            elif field == 'ifs' and isinstance(o, ast.comprehension):  # documented: an element includes its leading `if`
+                ex = []
+                for x in v:
+                    g = orc.group_span(x)
+                    t = None if g is None else orc.by_start.get(g[0])
+                    pv = orc.toks[t.i - 1] if t is not None and t.i else None
+                    ex.append((pv.start, g[1]) if pv is not None and pv.s == 'if' else None)
+                out[field] = ex
+            else:
+                out[field] = [_elem_extent(orc, x) for x in v]
+    if isinstance(o, (ast.Call, ast.ClassDef)):
+        pos = (o.args if isinstance(o, ast.Call) else o.bases) + o.keywords
+        if pos and all(orc.has_pos(x) for x in pos):
+            pos = sorted(pos, key=lambda x: (x.lineno, x.col_offset))
+            out['_args' if isinstance(o, ast.Call) else '_bases'] = [_elem_extent(orc, x) for x in pos]
+    if isinstance(o, ast.MatchClass) and (o.patterns or o.kwd_patterns):
+        ex = [_elem_extent(orc, x) for x in o.patterns]
+        for k in range(len(o.kwd_patterns)):
+            a, g = orc.expected_kwd_attr(o, k), orc.group_span(o.kwd_patterns[k])
+            ex.append(None if a is None or g is None else (a[0], g[1]))
+        out['_attrs'] = ex
+    if isinstance(o, ast.Dict) and o.values:
+        ex = []
+        for k, v in zip(o.keys, o.values):
+            g = orc.group_span(v)
+            if g is None:
+                ex.append(None)
+            elif k is not None:
+                gk = orc.group_span(k)
+                ex.append(None if gk is None else (gk[0], g[1]))
+            else:
+                t = orc.by_start.get(g[0])
+                ex.append((orc.toks[t.i - 1].start, g[1]) if t is not None and t.i and orc.toks[t.i - 1].s == '**' else None)
+        out['_all'] = ex
+    if isinstance(o, ast.MatchMapping) and (o.keys or o.rest):
+        ex = []
+        for k, v in zip(o.keys, o.patterns):
+            gk, g = orc.group_span(k) if id(k) not in orc.in_fstr else None, orc.group_span(v)
+            fl = orc.first_last(k)
+            ex.append(None if fl is None or g is None else (fl[0].start, g[1]))
+        if o.rest is not None:
+            r = orc.expected_mapping_rest(o)
+            ex.append(None if r is None else (r[1], r[0][1]))
+        out['_all'] = ex
+    if isinstance(o, ast.Compare):
+        out['_all'] = [_elem_extent(orc, x) for x in [o.left] + o.comparators]
+    if isinstance(o, (ast.Module, ast.FunctionDef, ast.AsyncFunctionDef, ast.ClassDef)) and o.body:
+        b = o.body
+        if isinstance(b[0], ast.Expr) and isinstance(b[0].value, ast.Constant) and isinstance(b[0].value.value, str):
+            b = b[1:]
+        if b:
+            out['_body'] = [_elem_extent(orc, x) for x in b]
+    return out
+
+
+def _judge_views(root, orc, o_of, res, fail, tally):
+    """VIEW locations are reported locations too: every contiguous window of every sliceable field of every node"""
+    for f in root.walk(True):
+        o = o_of[id(f.a)]
+        k = _kind(o)
+        for name, ex in _view_elements(orc, o).items():
+            try:
+                view = getattr(f, name)
+                n = len(view)
+            except Exception as e:
+                tally(f'view-unavailable:{k}.{name}:{type(e).__name__}')
+                continue
+            if n != len(ex):
+                tally(f'excluded:view-length-differs:{k}.{name}')
+                continue
+            if n <= 6:
+                wins = [(i, j) for i in range(n) for j in range(i + 1, n + 1)]
+            else:
+                wins = [(i, i + 1) for i in range(n)] + [(i, i + 2) for i in range(n - 1)] + [(0, j) for j in range(3, n + 1)] + [(i, n) for i in range(1, n - 2)]
+            for i, j in wins:
+                if ex[i] is None or ex[j - 1] is None:
+                    tally('excluded:view-element-undecided')
+                    continue
+                exp = (ex[i][0], ex[j - 1][1])
+                res['checks'] += 1
+                try:
+                    v = view[i:j]
+                    loc = v.loc
+                    acc = (v.ln, v.col, v.end_ln, v.end_col)
+                    bloc = v.bloc
+                except Exception as e:
+                    fail(f'C06|view.loc|{k}.{name}|raised', f'{k}.{name}[{i}:{j}] raised {type(e).__name__}: {e}', node=k, view=name, window=[i, j])
+                    continue
+                if loc is None or ((loc[0], loc[1]), (loc[2], loc[3])) != exp:
+                    txt = None if loc is None else root._get_src(*loc)
+                    fail(f'C06|view.loc|{k}.{name}|span', f'{k}.{name}[{i}:{j}].loc = {None if loc is None else tuple(loc)} (text {txt!r}) but the elements span {exp}',
+                         node=k, view=name, window=[i, j])
+                elif acc != tuple(loc) or tuple(bloc) != tuple(loc):
+                    fail(f'C06|view.loc|{k}.{name}|accessors-disagree', f'{k}.{name}[{i}:{j}]: loc {tuple(loc)} but ln/col/end_ln/end_col = {acc}, bloc = {tuple(bloc)}',
+                         node=k, view=name, window=[i, j])
+                else:
+                    res['nontrivial'] += 1
+                    tally('views-judged')
+
+
 def _sweep_prog(arg):
     """never raises: an exception escaping from pfst while locations are queried is a failure of the property"""
     try:
@@ -742,6 +891,7 @@ def _sweep_prog_inner(arg):
                 fail(f'C06|pars(shared=None)|{k}|{"count" if first[0] == "raised" or first[4] != exp[0] else "span"}',
                      f'{k} at {orc.span(o)}: pars(shared=None) = {first} but {exp[0]} parenthesis pair(s) enclose it directly, spanning {exp[1]}', node=k)
     nodes = _judge_geometry(root, orc, o_of, res, fail, tally)
+    _judge_views(root, orc, o_of, res, fail, tally)
     # --- find_*loc vs brute force ------------------------------------------------------------------------------------
     in_deco = set()
     for i, (f, d, pi) in enumerate(nodes):
